@@ -146,7 +146,9 @@ def main():
     rargs.append(("quantity", int(m.group(2))))
     add("RESP_DEFAULT_QUANTITY", int(m.group(4)), "redis/mod.rs quantity when the 6th argument is omitted")
     add("RESP_THROTTLE_FULL_ARITY", int(m.group(1)), "redis/mod.rs args.len() with explicit quantity")
-    m = need(rmod, r"args\.len\(\) < (\d+) \|\| args\.len\(\) > (\d+)", "RESP arity check")
+    m = re.search(r"args\.len\(\) < (\d+) \|\| args\.len\(\) > (\d+)", rmod) or re.search(r"!\((\d+)\.\.=(\d+)\)\.contains\(&args\.len\(\)\)", rmod)
+    if not m:
+        raise KeyError("RESP arity check")
     add("RESP_THROTTLE_MIN_ARGS", int(m.group(1)), "redis/mod.rs arity lower bound")
     add("RESP_THROTTLE_MAX_ARGS", int(m.group(2)), "redis/mod.rs arity upper bound")
     m = need(http, r"quantity:\s*req\.quantity\.unwrap_or\((\d+)\)", "HTTP default quantity")
@@ -178,13 +180,20 @@ def main():
         if len(arms) != 2:
             raise KeyError("Ok/Err arms in " + what)
         def calls(t):
-            return [re.sub(r"\s+", " ", c.strip()) for c in re.findall(r"metrics\s*\.\s*(record_\w+\([^;]*?\));", t, re.S)]
+            def norm(c):
+                c = re.sub(r"\s+", " ", c.strip())
+                c = re.sub(r"\(\s+", "(", c)
+                c = re.sub(r",?\s*\)$", ")", c)
+                return c
+            return [norm(c) for c in re.findall(r"metrics\s*\.\s*(record_\w+\([^;]*?\));", t, re.S)]
         return [("ok", c) for c in calls(arms[0])] + [("err", c) for c in calls(arms[1])]
     http_calls = metric_calls(http, "http.rs")
     grpc_calls = metric_calls(grpc, "grpc.rs")
     resp_calls = [re.sub(r"\s+", " ", c.strip()) for c in re.findall(r"metrics\.(record_\w+\([^;]*?\));", rmod, re.S)]
 
     def pairs(name, doc, xs):
+        # a struct literal's field order is irrelevant in Rust: sort by field; collapse whitespace in expressions
+        xs = sorted((a, re.sub(r"\s+", " ", b).strip()) for a, b in xs)
         return [f"/-- {doc} -/", f"def {name} : List (String × String) := [" + ", ".join(f'("{a}", "{b}")' for a, b in xs) + "]"]
 
     lines = ["/- GENERATED by verif/translate/translate.py from /repo's sources on every run. Do not edit. -/",
